@@ -37,12 +37,15 @@ int main(int argc, char** argv)
     {
       const int nv = atoi(argv[2]), S = atoi(argv[3]), maxseg = atoi(argv[4]);
       const bool d90 = atoi(argv[5]), d180 = atoi(argv[6]), sw = atoi(argv[7]);
-      shared_ptr<Scanner> scanner(new Scanner(Scanner::E953));
+      shared_ptr<Scanner> scanner(new Scanner(Scanner::E931)); // no intrinsic tilt (a tilted scanner such as E953 switches the view symmetries off)
       scanner->set_num_detectors_per_ring(2 * nv);
       scanner->set_num_rings(maxseg + 2);
       shared_ptr<ProjDataInfo> pdi(ProjDataInfo::ProjDataInfoCTI(scanner, 1, maxseg, nv, 8, false));
       shared_ptr<DiscretisedDensity<3, float>> img(new VoxelsOnCartesianGrid<float>(*pdi));
       DataSymmetriesForBins_PET_CartesianGrid sym(pdi, img, d90, d180, sw, true, true);
+      // the requested view symmetries must really be in effect (fields read with -fno-access-control)
+      if ((d90 && nv % 4 == 0 && !sym.do_symmetry_90degrees_min_phi) || ((d90 || d180) && nv % 2 == 0 && !sym.do_symmetry_180degrees_min_phi))
+        { std::printf("requested view symmetries were switched off by the constructor\n"); return 3; }
       std::map<std::pair<int, int>, int> seen;
       for (int s = 0; s < S; ++s)
         {
